@@ -1350,10 +1350,12 @@ class Oracle(object):
             if out.get('where'):
                 return 'leaving a fresh db_session after %r raised %s: %s' % (op[1], out['exc'], out['msg'])
             return self.judge(op[1], out)
-        f = getattr(self, 'j_' + (k if not k.startswith('c_') or k in ('c_str', 'c_create', 'c_load', 'c_select')
-                                  else ('collread' if k in COLL_READ_OPS else 'write')), None)
         if k in WRITE_OPS:
             f = self.j_write
+        elif k in COLL_READ_OPS:
+            f = self.j_collread
+        else:
+            f = getattr(self, 'j_' + k, None)
         if f is None:
             raise HarnessError('no judge for %r' % (op,))
         return f(op, out)
@@ -1437,6 +1439,7 @@ class Oracle(object):
         o = self.m.mem[h]
         mode1 = self.readable(h, a['name'])
         cands = [c for c in self.scalar_cands(h, a, canon=False) if c is not None]
+        cands = [c for i, c in enumerate(cands) if c not in cands[:i]]
         targets = [(a['type'], c) for c in cands if (a['type'], c) in self.m.mem]
         if 'exc' in out:
             # allowed when either step may raise
